@@ -96,6 +96,21 @@ class C10(E1Prop):
                                 'vi': rng.randrange(3),
                                 'kind': rng.choice(['plain', 'merge']),
                                 'actor': None, 'dt': 5})
+                if rng.random() < 0.35:
+                    # a job that stops before cloning, then the source
+                    # moves, then events on the new tip
+                    pr = ops.user_pr(w, p)
+                    self.script = [
+                        {'op': 'comment', 'p': p, 'actor': who,
+                         'text': '@%s %s' % (ROBOT, rng.choice(
+                             ['status', 'help', 'frobnicate'])), 'dt': 5},
+                        {'op': 'eval', 'p': p, 'dt': 1},
+                        {'op': 'commit', 'p': p, 'kind': 'new', 'dt': 5},
+                        {'op': 'probe', 'pick': rng.randrange(10 ** 9),
+                         'nmax': 0, 'dt': 1, 'targets': [
+                             {'k': 'commit', 'ref': pr.src_branch},
+                             {'k': 'pr', 'id': pr.id}]}]
+                    return self.script.pop(0)
                 for i in range(rng.choice([2, 2, 3])):
                     seq.append({'op': 'comment', 'p': p, 'actor': who,
                                 'text': '@%s %s' % (ROBOT,
